@@ -187,4 +187,7 @@ def cached_node_property(name):''')]),
     dict(name="restore_ind recomputes the slice count from dimensions", kind="break", file=CORE,
          old="        tree.multiplicity //= si.size\n", new="        tree.multiplicity = prod(tree.size_dict[ix] for ix in tree.sliced_inds)\n",
          expect=("C02-MULTPAIR", "restore_ind")),
+    dict(name="round3: whole-tree stats memoised in the root's info", kind="break",
+         edits=[("cotengra/core.py", "            tracker.update_post_step()\n\n        return tracker", "            tracker.update_post_step()\n\n        self.info[self.root][(\"compressed_stats\", chi)] = tracker\n        return tracker")],
+         expect=("C02-KEYS", "adhoc")),
 ]
